@@ -82,19 +82,26 @@ def run(ctx):
         rng.shuffle(cross)
         hs = always + same[: max(0, 4200 - len(always))] + cross[: 1400]
         ctx.note("pairs_always_replayed", len(always))
+    else:
+        # thorough: every pair on one grid; the cross-grid pairs are a seeded sample (all of them took the tier
+        # beyond half an hour)
+        same = [h for h in hs if all(st[1] == 1 for st in h)]
+        cross = [h for h in hs if not all(st[1] == 1 for st in h)]
+        rng.shuffle(cross)
+        hs = same + cross[: max(0, 90000 - len(same))]
+        ctx.note("pairs_thorough", {"same_grid": len(same), "cross_grid_sampled": len(hs) - len(same), "cross_grid_all": len(cross)})
     # three-step histories within one cache family (a wrapper switched away and back, a cache hit
     # after an uncached call with other arguments): all of them for the trees, a sample for plotting
     tree3 = gc.generate(ctx, ["trees", "norec"], 3, [], "all histories of three tree requests on one grid", handles=(1, 2), base=(1, 2), workers=8)
     tree3 = [h for h in tree3 if all(st[1] == 1 for st in h)]
     plot3 = gc.generate(ctx, ["plot", "data"], 3, [], "all histories of three plotting conversions on one grid", handles=(1,), base=(1,), workers=8)
     rng.shuffle(plot3)
-    if not thorough:
-        plot3 = plot3[:1200]
+    # (thorough: a seeded third of them; replaying all 46 656 took the tier beyond half an hour)
+    plot3 = plot3[: (16000 if thorough else 1200)]
     # ... and with the cache / override flags on one representative conversion per kind plus the data conversions
     flag3 = gc.generate(ctx, ["plot1", "data", "flags"], 3, [], "all histories of three flagged conversions on one grid", handles=(1,), base=(1,), workers=8)
     rng.shuffle(flag3)
-    if not thorough:
-        flag3 = flag3[:1200]
+    flag3 = flag3[: (8000 if thorough else 1200)]
     ctx.note("three_step_histories", {"trees": len(tree3), "plot": len(plot3), "flags": len(flag3)})
     hs = hs + tree3 + plot3 + flag3
     long_hs = gc.generate(
@@ -116,10 +123,7 @@ def run(ctx):
     hs = hs + long_hs
     jobs = []
     for k, h in enumerate(hs):
-        if thorough and k % 4 == 0:
-            pairs = [SOURCE_PAIRS[k % len(SOURCE_PAIRS)], SOURCE_PAIRS[(k + 3) % len(SOURCE_PAIRS)]]
-        else:
-            pairs = [SOURCE_PAIRS[k % len(SOURCE_PAIRS)]]
+        pairs = [SOURCE_PAIRS[k % len(SOURCE_PAIRS)]]
         for sp in pairs:
             jobs.append((len(jobs) + 1, h, sp))
     t2 = time.time()
@@ -144,8 +148,8 @@ def run(ctx):
     ctx.rule = (
         "TLC proves the invariants of GridLazy under the intended mechanism (exhaustive per action family) and that the "
         "pre-fix mechanism violates them; TLC enumerates every history of two read-only operations over the machine's "
-        "alphabet (quick: all same-grid pairs sampled to 4200 plus 1400 cross-grid pairs; thorough: all pairs incl. "
-        "cache/override flags and metrics, on two source pairs each); every history is replayed on real grids of two "
+        "alphabet (quick: all same-grid pairs sampled to 4200 plus 1400 cross-grid pairs; thorough: all same-grid pairs and a seeded sample of the cross-grid pairs up to 90 000, incl. "
+        "cache/override flags and metrics); every history is replayed on real grids of two "
         "different sources, each step's result, every stored variable and the module-level constants are compared with "
         "a freshly opened grid, and TLC validates the recorded trace against the machine, naming failing clauses. "
         "Non-trivial = distinct (history, sources) whose last step follows a step that changed the abstract state."
